@@ -2,6 +2,7 @@ package main
 
 import (
 	"fmt"
+	"go/constant"
 	"go/token"
 	"go/types"
 	"sort"
@@ -479,6 +480,8 @@ func runC09(c *Ctx) {
 	c09FrozenEntries(c, c.W)
 	c09QueueUndo(c, c.W)
 	c09DistinctUpdateArgs(c, c.W)
+	c09RemoveMirror(c, c.W)
+	c09StatRewards(c, c.W)
 }
 
 // c09Bookkeeping: the journal's own bookkeeping that revert exactness rests on.
@@ -1147,6 +1150,96 @@ func c09DistinctUpdateArgs(c *Ctx, w *World) {
 	c.Rule("C09.J12", "SAME-VALUE", "the journal's pre-image of a validator update is not the record that replaces it: at every UpdateValidator(new, old) call site the two arguments can never be one and the same object (values followed through phis and local variables share no source) — otherwise the edit was made in place on the only copy and RevertToSnapshot restores a record that already carries it (shared with C08.V13)")
 	c.Min(10)
 	distinctUpdateArgs(c, w)
+}
+
+// c09RemoveMirror (J13) and the once-only decrement (C10.K12) share removalEffects.
+func removalEffects(w *World) (rm, rv, del *ssa.Function, rmDecr, rvIncr, rmFlag, rvUnflag bool, delGuarded bool) {
+	rm = w.Fn(statePkg, "StateDB", "RemoveValidator")
+	rv = w.Fn(statePkg, "validatorDeleteChange", "revert")
+	del = w.Fn(statePkg, "StateDB", "deleteValidator")
+	incr := w.FuncObj(statePkg, "StateDB", "incrValidatorsStat")
+	decr := w.FuncObj(statePkg, "StateDB", "decrValidatorsStat")
+	rmDecr = len(callsTo(rm, decr)) > 0
+	rvIncr = len(callsTo(rv, incr)) > 0
+	flagStore := func(fn *ssa.Function, want bool) bool {
+		for _, fwr := range fieldWrites(fn) {
+			if fwr.Field != nil && fwr.Field.Name() == "deleted" {
+				if st, ok := fwr.Instr.(*ssa.Store); ok {
+					if cv, isC := st.Val.(*ssa.Const); isC && cv.Value != nil && cv.Value.Kind() == constant.Bool && constant.BoolVal(cv.Value) == want {
+						return true
+					}
+				}
+			}
+		}
+		return false
+	}
+	rmFlag = flagStore(rm, true)
+	rvUnflag = flagStore(rv, false)
+	// deleteValidator's decrement depends on the flag's previous value
+	delGuarded = true
+	for _, ci := range callsTo(del, decr) {
+		guarded := false
+		for _, a := range atomsOf(factsAt(ci.Block())) {
+			if derivesFrom(a.X, func(x ssa.Value) bool {
+				f, _ := loadedField(x)
+				return f != nil && f.Name() == "deleted"
+			}) {
+				guarded = true
+			}
+		}
+		if !guarded {
+			delGuarded = false
+		}
+	}
+	return
+}
+
+// c09StatRewards (J14): the reward pools of the statistics are revertable state too.
+func c09StatRewards(c *Ctx, w *World) {
+	c.Rule("C09.J14", "CONFINED", "the reward pools and the residue kept in the validator statistics are part of the validator root, so they change only in a way a revert can undo: package staking does not call the in-place mutators of a statistics entry (ValKindStat.AddRewards, SetRewardsResidue, ResetRewards) on the live object handed out by the state — the journal has no entry for these fields. A snapshot taken before the end-of-block hook and reverted afterwards leaves the House pool at 3.2 YOU instead of 0; replaying the block adds the share a second time")
+	c.Min(1)
+	n := 0
+	for _, fn := range w.FuncsIn("staking") {
+		if fn.Blocks == nil || fn.Parent() != nil || strings.HasSuffix(w.fileOf(fn.Pos()), "_test.go") {
+			continue
+		}
+		var sites []string
+		var pos token.Pos
+		for _, x := range withClosures(fn) {
+			for _, ci := range callInstrs(x) {
+				o := calleeObj(ci)
+				if o == nil || recvName(o) != "ValKindStat" || !(o.Name() == "AddRewards" || o.Name() == "SetRewardsResidue" || o.Name() == "ResetRewards") {
+					continue
+				}
+				sites = append(sites, o.Name()+" at "+w.Pos(ci.Pos()))
+				if pos == token.NoPos {
+					pos = ci.Pos()
+				}
+			}
+		}
+		if len(sites) == 0 {
+			continue
+		}
+		n++
+		c.sites += len(sites)
+		c.sawFunc(fname(fn))
+		c.Fail(fname(fn)+"#statistics-rewards-changed-in-place", pos, "changes the reward fields of a live statistics entry in place ("+strings.Join(sites, ", ")+"): no journal entry records the previous amounts, RevertToSnapshot does not restore them")
+	}
+	if n == 0 {
+		c.sites++
+		c.Pass("staking#statistics-rewards-changed-in-place", token.NoPos, "package staking does not call the in-place reward mutators of the statistics")
+	}
+}
+
+func c09RemoveMirror(c *Ctx, w *World) {
+	c.Rule("C09.J13", "MIRROR", "RemoveValidator is undone completely: it marks the live record deleted and takes it out of the statistics, and the record it journals is that very object — so the undo (validatorDeleteChange.revert) clears the mark and puts the record back into the statistics (a store of deleted=false and incrValidatorsStat, mirroring the store of deleted=true and decrValidatorsStat). Otherwise a reverted removal leaves the validator invisible, the statistics one short, and the next flush really deletes it")
+	c.Min(2)
+	rm, rv, _, rmDecr, rvIncr, rmFlag, rvUnflag, _ := removalEffects(w)
+	c.sawFunc(fname(rm))
+	c.sawFunc(fname(rv))
+	c.sites += 2
+	c.Check(fname(rv)+"#restores-the-statistics", rv.Pos(), rmDecr == rvIncr, ifelse(rmDecr == rvIncr, "decrement in the operation, increment in its undo", "RemoveValidator takes the record out of the statistics and its undo does not put it back"))
+	c.Check(fname(rv)+"#clears-the-deleted-mark", rv.Pos(), rmFlag == rvUnflag, ifelse(rmFlag == rvUnflag, "the mark set by the operation is cleared by its undo", "RemoveValidator marks the journaled object itself as deleted and its undo re-installs that object with the mark still set"))
 }
 
 func c09FrozenEntries(c *Ctx, w *World) {
